@@ -20,6 +20,7 @@ import (
 	"strings"
 	"sync"
 	"testing"
+	"time"
 
 	"github.com/jdillenkofer/pithos/internal/storage"
 	"github.com/jdillenkofer/pithos/verifharness/ev"
@@ -310,6 +311,12 @@ func isFull(r response, content []byte) bool {
 // when the response is what RFC 7233 demands.
 func judge(specs []spec, content []byte, r response) string {
 	n := int64(len(content))
+	if r.code == -1 {
+		return fmt.Sprintf("GET did not complete within %s", stallLimit)
+	}
+	if r.code == -2 {
+		return "GET handler panicked"
+	}
 	if n == 0 {
 		// Nothing can be selected from an empty representation. 416 is the
 		// expected answer; a 200 with the (empty) body is RFC-conformant as well.
@@ -353,6 +360,8 @@ func judge(specs []spec, content []byte, r response) string {
 // byte-range-set: no 5xx, and whatever is returned must be right bytes.
 func judgeInvalid(content []byte, r response) string {
 	switch {
+	case r.code < 0:
+		return "GET did not complete or panicked"
 	case r.code >= 500:
 		return fmt.Sprintf("status %d for a malformed Range header", r.code)
 	case r.code == 200:
@@ -420,13 +429,48 @@ func writeObject(st storage.Storage, o Obj) ([]byte, []int, error) {
 	return content, edges, nil
 }
 
+// stallLimit bounds one GET / one storage read of an object of at most ~1 MiB
+// that lives in local files or SQLite (normally milliseconds). A read that does
+// not finish in this time is reported as "does not return the slice"; the
+// limit is far above anything machine load can explain.
+const stallLimit = 90 * time.Second
+
+// withWatchdog runs f and reports whether it finished within stallLimit. A
+// stalled f keeps running on its goroutine (it cannot be cancelled).
+func withWatchdog(f func()) bool {
+	done := make(chan struct{})
+	go func() {
+		defer close(done)
+		defer func() { _ = recover() }()
+		f()
+	}()
+	select {
+	case <-done:
+		return true
+	case <-time.After(stallLimit):
+		return false
+	}
+}
+
 func get(h http.Handler, rangeHeader *string) response {
 	var hdr http.Header
 	if rangeHeader != nil {
 		hdr = http.Header{"Range": []string{*rangeHeader}}
 	}
-	rec := s3http.Do(h, "GET", "/"+bucket+"/"+objKey, nil, hdr, nil)
-	return recToResponse(rec)
+	var r response
+	panicked := true
+	ok := withWatchdog(func() {
+		rec := s3http.Do(h, "GET", "/"+bucket+"/"+objKey, nil, hdr, nil)
+		r = recToResponse(rec)
+		panicked = false
+	})
+	if !ok {
+		return response{code: -1}
+	}
+	if panicked {
+		return response{code: -2}
+	}
+	return r
 }
 
 func recToResponse(rec *httptest.ResponseRecorder) response {
@@ -472,6 +516,14 @@ func toStorageRanges(specs []spec) ([]storage.ByteRange, bool) {
 // member: all satisfiable => exact slices; none satisfiable => ErrInvalidRange;
 // mixed => either, but never wrong bytes.
 func checkStorage(st storage.Storage, specs []spec, content []byte) string {
+	msg := "storage.GetObject panicked"
+	if !withWatchdog(func() { msg = checkStorageInner(st, specs, content) }) {
+		return fmt.Sprintf("storage.GetObject / reading its readers did not complete within %s", stallLimit)
+	}
+	return msg
+}
+
+func checkStorageInner(st storage.Storage, specs []spec, content []byte) string {
 	ranges, ok := toStorageRanges(specs)
 	if !ok {
 		return ""
@@ -588,7 +640,10 @@ func runCase(env *ev.Env, c Case) (o ev.Outcome) {
 
 	// no Range header: 200 and the whole body
 	o.Sub++
-	if r := get(h, nil); !isFull(r, content) {
+	if r := get(h, nil); r.code < 0 {
+		o.Failf("GET without Range on %s object of %d bytes (part edges %v), stack %s: %s", c.Obj.Kind, n, edges, c.Stack, judge(nil, content, r))
+		return
+	} else if !isFull(r, content) {
 		o.Failf("GET without Range: status %d, %d body bytes, Content-Length %q; expected 200 with the %d content bytes", r.code, len(r.body), r.header.Get("Content-Length"), n)
 		return
 	}
@@ -690,7 +745,7 @@ func genPartSize(t *rapid.T, big bool) int {
 }
 
 func interesting(n int64, edges []int) []uint64 {
-	vals := []uint64{0, 1, 1 << 31, uint64(maxInt64), uint64(maxInt64) - 1}
+	vals := []uint64{0, 1, 1 << 31, uint64(maxInt64) - 1}
 	add := func(v int64) {
 		if v >= 0 {
 			vals = append(vals, uint64(v))
@@ -724,16 +779,25 @@ func interesting(n int64, edges []int) []uint64 {
 	return vals
 }
 
-func genValue(t *rapid.T, n int64, vals []uint64) uint64 {
+// genValue draws a byte position. first=true: a first-byte-pos, which is kept
+// below the size most of the time so that most ranges (and most lists) are
+// satisfiable and the search continues behind the two known 416 findings.
+func genValue(t *rapid.T, n int64, vals []uint64, first bool) uint64 {
+	var v uint64
 	if rapid.IntRange(0, 9).Draw(t, "valKind") < 7 {
-		return rapid.SampledFrom(vals).Draw(t, "val")
+		v = rapid.SampledFrom(vals).Draw(t, "val")
+	} else {
+		v = uint64(rapid.Int64Range(0, n+2).Draw(t, "anyVal"))
 	}
-	return uint64(rapid.Int64Range(0, n+2).Draw(t, "anyVal"))
+	if first && n > 0 && v >= uint64(n) && rapid.IntRange(0, 9).Draw(t, "keepBeyond") != 5 {
+		v %= uint64(n)
+	}
+	return v
 }
 
 func fmtNum(t *rapid.T, v uint64) string {
 	s := strconv.FormatUint(v, 10)
-	if rapid.IntRange(0, 19).Draw(t, "leadingZero") == 0 {
+	if rapid.IntRange(0, 19).Draw(t, "leadingZero") == 7 {
 		s = "00" + s
 	}
 	return s
@@ -742,20 +806,23 @@ func fmtNum(t *rapid.T, v uint64) string {
 func genSpec(t *rapid.T, n int64, vals []uint64) string {
 	switch rapid.IntRange(0, 9).Draw(t, "specKind") {
 	case 0, 1: // suffix
-		v := genValue(t, n, vals)
+		v := genValue(t, n, vals, false)
 		if rapid.IntRange(0, 3).Draw(t, "smallSuffix") == 0 {
-			v = uint64(rapid.IntRange(0, 3).Draw(t, "sfx"))
+			v = uint64(rapid.IntRange(1, 3).Draw(t, "sfx"))
+		}
+		if rapid.IntRange(0, 19).Draw(t, "zeroSuffix") == 11 {
+			v = 0
 		}
 		return "-" + fmtNum(t, v)
 	case 2, 3: // open ended
-		return fmtNum(t, genValue(t, n, vals)) + "-"
+		return fmtNum(t, genValue(t, n, vals, true)) + "-"
 	default:
-		a, b := genValue(t, n, vals), genValue(t, n, vals)
+		a, b := genValue(t, n, vals, true), genValue(t, n, vals, false)
 		if a > b {
 			a, b = b, a
 		}
-		if rapid.IntRange(0, 29).Draw(t, "beyondInt64") == 0 {
-			return fmtNum(t, a) + "-" + rapid.SampledFrom([]string{"9223372036854775808", "18446744073709551616", "99999999999999999999999"}).Draw(t, "hugeLast")
+		if rapid.IntRange(0, 24).Draw(t, "beyondInt64") == 17 {
+			return fmtNum(t, a) + "-" + rapid.SampledFrom([]string{"9223372036854775807", "9223372036854775807", "9223372036854775808", "18446744073709551616", "99999999999999999999999"}).Draw(t, "hugeLast")
 		}
 		return fmtNum(t, a) + "-" + fmtNum(t, b)
 	}
@@ -780,7 +847,7 @@ func genHeader(t *rapid.T, n int64, vals []uint64) string {
 func gen5(t *rapid.T, env *ev.Env) Case {
 	var c Case
 	c.Stack = rapid.SampledFrom(c05Stacks).Draw(t, "stack")
-	big := rapid.IntRange(0, 3).Draw(t, "big") == 0
+	big := rapid.IntRange(0, 5).Draw(t, "big") == 0
 	nParts := rapid.SampledFrom([]int{1, 1, 2, 2, 2, 3, 3, 4}).Draw(t, "nparts")
 	if nParts == 1 {
 		c.Obj.Kind = "put"
@@ -802,7 +869,7 @@ func gen5(t *rapid.T, env *ev.Env) Case {
 		edges = append(edges, total)
 	}
 	vals := interesting(int64(total), edges)
-	nh := rapid.IntRange(8, 30).Draw(t, "nheaders")
+	nh := rapid.IntRange(6, 20).Draw(t, "nheaders")
 	for i := 0; i < nh; i++ {
 		c.Headers = append(c.Headers, genHeader(t, int64(total), vals))
 	}
@@ -814,7 +881,7 @@ func TestC05(t *testing.T) {
 		ID:    "C05",
 		Level: "exploration",
 		Rule: "a case = one object (put / multipart with 1-4 small parts / put+appends; part sizes 1..6000 or at tink-segment, EC-stripe and 256 KiB edges; occasionally empty) on a drawn stack (P1 sql, P2 fs, P3 zstd, P4 tink seekable, P7 tink>gzip, P8 erasure coding) " +
-			"and 8-30 syntactically valid Range headers (first-last, first-, -n, lists of 2-4, optional whitespace, leading zeros; values from {0,1,part edges±1,segment edges±1,size-2..size+1,2^31,2^63-2,2^63-1,>2^63} or uniform), each sent through the HTTP handler and through storage.GetObject; " +
+			"and 6-20 syntactically valid Range headers (first-last, first-, -n, lists of 2-4, optional whitespace, leading zeros; values from {0,1,part edges±1,segment edges±1,size-2..size+1,2^31,2^63-2,2^63-1,>2^63} or uniform), each sent through the HTTP handler and through storage.GetObject; " +
 			"non-trivial = some range crosses a part boundary, or has last-byte-pos >= size, or is a suffix longer than the object, or a list mixes satisfiable and unsatisfiable members; distinct = distinct case JSON",
 		Assumptions: []string{
 			"oracle = own RFC 7233 evaluator over the bytes that were written (content is a deterministic function of the case)",
